@@ -62,7 +62,7 @@ SGE_DEFAULTS = {"cores": 1, "memory": "1g", "walltime": "01:00:00", "queue": Non
 LSF_DEFAULTS = {"queue": "normal", "memory": "4GB", "cores": 1}
 DEFAULTS = {"slurm": SLURM_DEFAULTS, "sge": SGE_DEFAULTS, "lsf": LSF_DEFAULTS}
 OPT_VALUES = {
-    "cores": [1, 2, 4, 16, None], "memory": ["1g", "8g", "500m", "4GB", "16000", "7g", None],
+    "cores": [1, 2, 4, 16, None], "memory": ["1g", "8g", "500m", "4GB", "16000", "7g", None, 0],
     "walltime": ["00:10:00", "12:00:00", None], "queue": ["short", "normal,long", None], "account": ["proj1", None],
     "constraint": ["avx2", None], "qos": ["high", None], "mail_type": ["END", None], "mail_user": ["a@b.c", None],
     "gres": ["gpu:1", None], "nodes": [1, 2, None], "bogus_option": ["x", 3], "threads": [2],
@@ -95,13 +95,21 @@ def _case(draw, tier):
     b = draw(st.sampled_from(["slurm", "slurm", "sge", "lsf"]))
     keys = sorted(DEFAULTS[b]) + ["bogus_option", "threads"]
     spec, mid_fail = draw(_spec())
+
+    def opts():
+        o = draw(_opts(keys))
+        if b != "slurm" and o.get("memory") == 0:
+            o["memory"] = "1g"  # an integer memory (Slurm: --mem=0 = all of the node) is only legal for Slurm
+        return o
+
     return {
         "backend": b, "spec": spec, "mid_fail": mid_fail,
         "wd": draw(st.sampled_from(WDS + ["plain", "plain"])),
-        "wf_defaults": draw(_opts(keys)), "template_options": draw(_opts(keys)), "options": draw(_opts(keys)),
+        "wf_defaults": opts(), "template_options": opts(), "options": opts(),
         "via": draw(st.sampled_from(["target", "template"])),
         "log_mode": draw(st.sampled_from([None, "full", "merged", "none"])),
         "clean_logs": draw(st.sampled_from([None, True, False])),
+        "config_via": draw(st.sampled_from(["file", "cli"])),
         "second_spec": draw(st.sampled_from(["echo second run\necho e2 >&2\n", "echo other\n"])),
     }
 
@@ -271,7 +279,8 @@ def run_case(case):
         cfg["clean_logs"] = case["clean_logs"]
     viols, labels = [], {"backend-" + b}
     final, unknown = expected_options(case)
-    with project.Project(desc, backend=b, config=cfg) as proj:
+    with project.Project(desc, backend=b) as proj:
+        proj.write_config(dict({"backend": b}, **cfg), via_cli=case.get("config_via") == "cli")
         wd = proj.path(case["wd"]) if t["wd"] else proj.dir
         os.makedirs(wd, exist_ok=True)
         logs = proj.path(".gwf/logs")
